@@ -168,9 +168,9 @@ class keymap(object):
 
     def encrypt(self, *args, **kwds):
         """use a non-flat scheme for generating a key"""
-        key = (args, kwds) #XXX: pickles larger, but is simpler to unpack
+        sorted_items = self._sorted(list(kwds.items()))
+        key = (args, dict(sorted_items)) #XXX: pickles larger, but is simpler to unpack
         if self.typed:
-            sorted_items = self._sorted(list(kwds.items()))
             key += (self._tuple(self._type(v) for v in args), \
                     self._tuple(self._type(v) for (k,v) in sorted_items))
         # __chain__
